@@ -204,6 +204,15 @@ func removeTabNL(s string) string {
 	return strings.NewReplacer("\t", "", "\n", "", "\r", "").Replace(s)
 }
 
+func hasLonePercentAsWritten(s string) bool {
+	for i := 0; i < len(s); i++ {
+		if s[i] == '%' && !(i+2 < len(s) && isHexByte(s[i+1]) && isHexByte(s[i+2])) {
+			return true
+		}
+	}
+	return false
+}
+
 func hasLonePercent(s string) bool {
 	s = removeTabNL(s)
 	for i := 0; i < len(s); i++ {
@@ -280,7 +289,9 @@ func triggered(o Opt16, c Case16, d0 parsed) bool {
 	case "accept-invalid":
 		return any(func(s string) bool { return !utf8.ValidString(s) })
 	case "single-percent":
-		return any(hasLonePercent)
+		// with and without the removal of tabs and newlines: the parser removes them from its input,
+		// the credential setters do not ("%A\tA" holds an escape for the one, a lone '%' for the other)
+		return any(func(s string) bool { return hasLonePercent(s) || hasLonePercentAsWritten(s) })
 	case "collapse":
 		for _, op := range c.Ops {
 			// in a setter value there is no authority-introducing pair to exempt
